@@ -305,7 +305,28 @@ def chain_multi_worker(args):
             nsite = sum(1 for c in seq if c[0] == site)
             out.append((f"chain|two-sites|{fam}|{nsite}-controls-on-site|state-mismatch",
                         f"insertion sequence (site, step, side, map) {seq}: site {site} |rho-ref|={dev:.2e}"))
-    return {"idx": idx, "vio": out, "nruns": 1, "outcome": np.round(np.array(r["dynamics"][0].states), 9).tobytes()[:64]}
+    # the same PtTebd object re-run after MORE controls were added to the ChainControl it holds: the first run sees the
+    # first half of the insertion sequence, the re-run (initialize + compute) must see all of it
+    half = len(seq) // 2
+    cc2 = oq.ChainControl([D, D])
+    for (site, st, sd, mp) in seq[:half]:
+        cc2.add_single_site_control(MAPS[mp].copy(), site=site, step=int(st), post=(sd == "post"))
+    tebd2 = oq.PtTebd(oq.AugmentedMPS([M.RHO_GEN2, M.RHO_GEN2]), chain, [E["pt"], None],
+                      oq.PtTebdParameters(dt=DT, order=2, epsrel=1e-12), chain_control=cc2, dynamics_sites=[0, 1])
+    tebd2.compute(N, progress_type="silent")
+    for (site, st, sd, mp) in seq[half:]:
+        cc2.add_single_site_control(MAPS[mp].copy(), site=site, step=int(st), post=(sd == "post"))
+    tebd2.initialize()
+    r2 = tebd2.compute(N, progress_type="silent")
+    for site in (0, 1):
+        scale = np.trace(refs[1 - site], axis1=1, axis2=2)[:, None, None]
+        got = np.array(r2["dynamics"][site].states)
+        if got.shape != refs[site].shape or np.abs(got - scale * refs[site]).max() > 1e-9:
+            out.append((f"chain|two-sites|re-run-after-controls-were-added-to-the-ChainControl|state-mismatch",
+                        f"insertion sequence {seq}: first run with the first {half} controls, then the rest added, "
+                        f"initialize() and compute(): site {site} differs from the reference for all controls"))
+            break
+    return {"idx": idx, "vio": out, "nruns": 2, "outcome": np.round(np.array(r["dynamics"][0].states), 9).tobytes()[:64]}
 
 
 def run(tier, seed):
